@@ -294,8 +294,10 @@ fn gen_price(r: &mut Rng, around: i64) -> Decimal {
 fn split_shares(r: &mut Rng, total: u32) -> Vec<u32> {
     let parts = match r.below(10) {
         0..=4 => 1,
-        5..=7 => 2,
-        _ => 3,
+        5..=6 => 2,
+        7 => 3,
+        8 => 4,
+        _ => 5,
     };
     let parts = parts.min(total);
     let mut left = total;
